@@ -17,12 +17,19 @@ C12 driver: one JSON request per line on stdin, one JSON answer per line on stdo
       (pre / post: include requests other constructs of the query make before / after the expression's own: withCompanions)
       -> {"files":[{"name":..,"incs":[..],"calls":b}..],"holds":b} | {"err":class}     (model: tr + packageFiles)
   {"op":"pkgspec","files":[{"name":..,"incs":[..],"calls":b}..]} -> {"holds":b,"culprit":name|null}   (PackageSpec on observed files)
+  {"op":"trx","expr":Q,"fns":[{"name":..,"nargs":n,"incs":[..],"ret":..}..],"vars":[[name,text,type]..],"lines":[text..]|null,"incs":[..]}
+      (the POSITIONS model, PosModel.lean; lines / incs: the statements of the rendered per-event method and the added include files)
+      -> {"ok":{"text":..,"ty":..,"incs":[..],"stmts":[..],"frags":[..]},"scoped":b,"called":[..],"tie":{"holds":b,"why":s}|null} | {"err":class,"scoped":b}
+  Q ::= E-forms (bin / un become nodes) | {"k":"var","n":name} | {"k":"node","kind":K,"kids":[Q..]}
+  K ::= {"t":"bin"|"un"|"cmp"|"boolop","op":astclass} | {"t":"ite"|"tuple"|"list"|"index"} | {"t":"dict","keys":[..]}
+      | {"t":"meth","name":..,"ret":..,"coll":b} | {"t":"lam","params":[..]}
   E ::= {"k":"leaf","t":text,"ty":type} | {"k":"call","f":name,"args":[E..]}
       | {"k":"bin","op":astclass,"l":E,"r":E} | {"k":"un","op":astclass,"e":E}
 Run: lake env lean --run FaxVerif/C12/Driver.lean
 -/
 import Lean.Data.Json
 import FaxVerif.C12.Spec
+import FaxVerif.C12.PosSpec
 import FaxVerif.Generated.C12Table
 open Lean FaxVerif.C12
 
@@ -55,11 +62,52 @@ partial def parseExpr (j : Json) : Except String PExpr := do
     pure (.un (← (← j.getObjVal? "op").getStr?) (← parseExpr (← j.getObjVal? "e")))
   else throw s!"unknown expression kind {k}"
 
+def parseKind (j : Json) : Except String Kind := do
+  let t ← (← j.getObjVal? "t").getStr?
+  if t == "bin" then pure (.bin (← (← j.getObjVal? "op").getStr?))
+  else if t == "un" then pure (.un (← (← j.getObjVal? "op").getStr?))
+  else if t == "cmp" then pure (.cmp (← (← j.getObjVal? "op").getStr?))
+  else if t == "boolop" then pure (.boolop (← (← j.getObjVal? "op").getStr?))
+  else if t == "ite" then pure .ite
+  else if t == "tuple" then pure .tuple
+  else if t == "list" then pure .list
+  else if t == "index" then pure .index
+  else if t == "dict" then pure (.dict (← strList (← j.getObjVal? "keys")))
+  else if t == "meth" then
+    pure (.meth (← (← j.getObjVal? "name").getStr?) (← (← j.getObjVal? "ret").getStr?) (← (← j.getObjVal? "coll").getBool?))
+  else if t == "lam" then pure (.lam (← strList (← j.getObjVal? "params")))
+  else throw s!"unknown node kind {t}"
+
+partial def parseQ (j : Json) : Except String QExpr := do
+  let k ← (← j.getObjVal? "k").getStr?
+  if k == "leaf" then
+    pure (.leaf (← (← j.getObjVal? "t").getStr?) (← (← j.getObjVal? "ty").getStr?))
+  else if k == "var" then pure (.var (← (← j.getObjVal? "n").getStr?))
+  else if k == "call" then
+    let args ← (← j.getObjVal? "args").getArr?
+    pure (.call (← (← j.getObjVal? "f").getStr?) (← args.toList.mapM parseQ))
+  else if k == "bin" then
+    pure (.node (.bin (← (← j.getObjVal? "op").getStr?)) [← parseQ (← j.getObjVal? "l"), ← parseQ (← j.getObjVal? "r")])
+  else if k == "un" then
+    pure (.node (.un (← (← j.getObjVal? "op").getStr?)) [← parseQ (← j.getObjVal? "e")])
+  else if k == "node" then
+    let kids ← (← j.getObjVal? "kids").getArr?
+    pure (.node (← parseKind (← j.getObjVal? "kind")) (← kids.toList.mapM parseQ))
+  else throw s!"unknown expression kind {k}"
+
 def errClass : TrErr → String
   | .attributeError _ => "AttributeError"
   | .unknownCall _ => "RuntimeError"
   | .unknownType _ => "AssertionError"
   | .unknownOp _ => "RuntimeError"
+
+def xerrClass : XErr → String
+  | .base e => errClass e
+  | .noRep _ => "RuntimeError"
+  | .arity _ => "Malformed"
+  | .valueError _ => "ValueError"
+  | .notCollection => "RuntimeError"
+  | .notValue => "RuntimeError"
 
 mutual
 partial def leavesOf : PExpr → List (String × String)
@@ -139,6 +187,32 @@ def handle (line : String) : String :=
         | .error er =>
           let head : List (String × Json) := [("err", errClass er)]
           pure (Json.mkObj (head ++ flags))
+      else if op == "trx" then
+        let e ← parseQ (← j.getObjVal? "expr")
+        let fj ← (← j.getObjVal? "fns").getArr?
+        let fns ← fj.toList.mapM fun f => do
+          pure ({ name := ← (← f.getObjVal? "name").getStr?, nargs := ← (← f.getObjVal? "nargs").getNat?,
+                  incs := ← strList (← f.getObjVal? "incs"), ret := ← (← f.getObjVal? "ret").getStr? } : UserFn)
+        let vj ← (← j.getObjVal? "vars").getArr?
+        let vars ← vj.toList.mapM fun p => do
+          match ← strList p with
+          | [n, t, ty] => pure (n, t, ty)
+          | _ => throw "var must be [name, text, type]"
+        let xc : XCfg := ⟨cfg, Gen.cmpOps, Gen.seqOps, fns, vars, Gen.ifName, Gen.boolName, Gen.accName⟩
+        let inScope := ScopedX xc e
+        match trX xc e with
+        | .ok v =>
+          let tie : Json ← match j.getObjVal? "lines" with
+            | .ok (.null) => pure Json.null
+            | .ok l => do
+              let lines ← strList l
+              let incs ← strList (← j.getObjVal? "incs")
+              let (h, why) := PositionTie v lines incs
+              pure (Json.mkObj [("holds", h), ("why", why)])
+            | .error _ => pure Json.null
+          pure (Json.mkObj [("ok", Json.mkObj [("text", renderX v.term), ("ty", v.ty), ("incs", jstrs v.incs), ("stmts", jstrs v.stmts),
+            ("frags", jstrs (tieFrags v))]), ("scoped", inScope), ("called", jstrs e.called), ("tie", tie)])
+        | .error er => pure (Json.mkObj [("err", xerrClass er), ("scoped", inScope)])
       else if op == "spec" then
         let e ← parseExpr (← j.getObjVal? "expr")
         let lv ← (← j.getObjVal? "leaves").getArr?
